@@ -174,9 +174,11 @@ def r06b_impl(model: Model, rr: RuleResult):
     else:
         # no flag, no dominating test: positive evidence when the fixed_safe test of the applied transform exists and its failing edge still reaches the reuse return
         escaped = False
+        tested = False
         for n_ in walk_body(wf):
             if isinstance(n_, ast.If) and applied and f"fixed_safe(*{applied})" in norm(n_.test).replace("not ", ""):
                 tn = wcfg.node_for(n_)
+                tested = True
                 neg = isinstance(n_.test, ast.UnaryOp) and isinstance(n_.test.op, ast.Not)
                 fail_lab = "T" if neg else "F"
                 for t_, lab in wcfg.nodes[tn].succs:
@@ -184,6 +186,9 @@ def r06b_impl(model: Model, rr: RuleResult):
                         escaped = True
         if escaped:
             rr.bad(wf, rr_ret[0], "the reuse wrapper is returned although the counter-transform of the gradient may overflow", construct="reuse return not guarded by `not overflows`")
+        elif tested and at_calls and wcfg.dominates(wcfg.node_for([n_ for n_ in walk_body(wf) if isinstance(n_, ast.If) and applied and f"fixed_safe(*{applied})" in norm(n_.test).replace("not ", "")][0]), wcfg.node_for(at_calls[0])):
+            rr.ok("the failing edge of fixed_safe(*transform) leaves without reaching the reuse wrapper (early exit instead of a flag)")
+            rr.ok("(no flag variable)")
         else:
             rr.bad_shape(wf, rr_ret[0], "the reuse wrapper is returned although the counter-transform of the gradient may overflow", construct="reuse return not guarded by `not overflows`")
     # OverflowError fallback wraps with the same transform
@@ -274,22 +279,30 @@ def r06d_impl(model: Model, rr: RuleResult):
         rr.bad(wf, cg[0], "new outline glyphs are never registered in the reuse cache (no add_glyph call): no later copy can reuse them",
                construct="_update_paint_glyph: _create_glyph without add_glyph")
         return
-    if len(tr) != 1 or len(ag) != 1 or len(cg) != 1:
+    if len(tr) != 1 or not ag or not cg or len(ag) != len(cg):
         raise AnalysisError("_update_paint_glyph: try_reuse/add_glyph/_create_glyph calls not found")
-    a, b = tr[0].args[0], ag[0].args[1]
-    if isinstance(a, ast.Name) and isinstance(b, ast.Name) and a.id == b.id and same_defs(cfg, cfg.node_for(tr[0]), cfg.node_for(ag[0]), a.id):
-        rr.ok(f"COLR: look-up key and insertion key are the same value ({a.id})")
-    else:
-        rr.bad(wf, ag[0], f"the path looked up by try_reuse ({short(a)}) is not the path inserted by add_glyph ({short(b)}): later copies are compared "
-               f"with a different outline", construct=f"try_reuse({short(a)}) vs add_glyph(_, {short(b)})")
-    if norm(cg[0].args[2]) == norm(a):
-        rr.ok("the outline drawn into the new glyph is the same font-space path")
-    else:
-        rr.bad(wf, cg[0], "the glyph is drawn from a different path than the one registered for reuse", construct=short(cg[0]))
-    if cfg.postdominates(cfg.node_for(ag[0]), cfg.node_for(cg[0])) and norm(ag[0].args[0]) == "glyph.name":
-        rr.ok("every newly created outline glyph is registered in the reuse cache under its own name")
-    else:
-        rr.bad(wf, cg[0], "a newly created glyph may not be registered for reuse (or under another name)", construct="_create_glyph not followed by add_glyph(glyph.name, ...)")
+    a = tr[0].args[0]
+    # every creation site (there may be several exits that store the shape un-reused) is paired with the registration that follows it
+    for c_ in cg:
+        pm_ = {ch: par for par in ast.walk(wf.node) for ch in ast.iter_child_nodes(par)}
+        holder = pm_.get(c_)
+        gname = holder.targets[0].id if isinstance(holder, ast.Assign) and len(holder.targets) == 1 and isinstance(holder.targets[0], ast.Name) else None
+        mine = [g_ for g_ in ag if cfg.postdominates(cfg.node_for(g_), cfg.node_for(c_))]
+        g_ = mine[0] if mine else None
+        b = g_.args[1] if g_ is not None and len(g_.args) > 1 else None
+        if g_ is not None and isinstance(a, ast.Name) and isinstance(b, ast.Name) and a.id == b.id and same_defs(cfg, cfg.node_for(tr[0]), cfg.node_for(g_), a.id):
+            rr.ok(f"COLR: look-up key and insertion key are the same value ({a.id})")
+        elif g_ is not None:
+            rr.bad(wf, g_, f"the path looked up by try_reuse ({short(a)}) is not the path inserted by add_glyph ({short(b)}): later copies are compared "
+                   f"with a different outline", construct=f"try_reuse({short(a)}) vs add_glyph(_, {short(b)})")
+        if len(c_.args) > 2 and norm(c_.args[2]) == norm(a):
+            rr.ok("the outline drawn into the new glyph is the same font-space path")
+        else:
+            rr.bad(wf, c_, "the glyph is drawn from a different path than the one registered for reuse", construct=short(c_))
+        if g_ is not None and gname is not None and norm(g_.args[0]) == f"{gname}.name":
+            rr.ok("every newly created outline glyph is registered in the reuse cache under its own name")
+        else:
+            rr.bad(wf, c_, "a newly created glyph may not be registered for reuse (or under another name)", construct="_create_glyph not followed by add_glyph(glyph.name, ...)")
     # svg.py
     gg = model.func("svg", "_glyph_groups")
     t2 = find_calls(gg, "try_reuse")
